@@ -2772,6 +2772,7 @@ theorem account_other (r : Res) (hr : ∀ b, r ≠ .value b) (excs : List Exc) (
   | timeout => exact ⟨(key false).1, (key false).2.1, (key false).2.2, rfl⟩
   | reentry => exact ⟨(key false).1, (key false).2.1, (key false).2.2, rfl⟩
   | stalejunk => exact ⟨(key false).1, (key false).2.1, (key false).2.2, rfl⟩
+  | rejected => exact ⟨(key false).1, (key false).2.1, (key false).2.2, rfl⟩
 
 /-! ## the clauses of the executable spec hold of the model's trace -/
 
